@@ -4,7 +4,7 @@ Rules on the public API surface: derivative drivers (C04), recording overloads
 """
 import ast
 from .core import Finding, RuleResult
-from .model import AnalysisError, dotted_name, norm, walk_no_nested
+from .model import AnalysisError, dotted_name, norm, walk_no_nested, seq_iteration
 from . import tracer_proto as tp
 from .effects import flat
 
@@ -59,10 +59,71 @@ def _self_calls(node, attr):
             and c.func.attr == attr and isinstance(c.func.value, ast.Name) and c.func.value.id == 'self']
 
 
+SWEEPS = ('pushforward', 'pullback')
+
+
+def _helper_of(m, call):
+    """`self.<h>(...)` with h a method of CGraph that is neither a sweep nor a driver -> FuncInfo"""
+    if isinstance(call.func, ast.Attribute) and isinstance(call.func.value, ast.Name) and call.func.value.id == 'self':
+        a = call.func.attr
+        if a in SWEEPS or a in DRIVERS:
+            return None
+        return m.lookup_method('CGraph', a)
+    return None
+
+
+def _stmt_sweeps(m, node, depth=0):
+    """sweep events of one statement in evaluation order: [(kind, call node, helper chain)].  A helper method of
+    CGraph contributes an event of a kind only when *every* returning path of the helper performs it (must-call)."""
+    ev = []
+    calls = [c for c in ast.walk(node) if isinstance(c, ast.Call)]
+    calls.sort(key=lambda c: (c.end_lineno, c.end_col_offset))       # inner calls complete first
+    for c in calls:
+        if isinstance(c.func, ast.Attribute) and c.func.attr in SWEEPS and isinstance(c.func.value, ast.Name) and c.func.value.id == 'self':
+            ev.append((c.func.attr, c, ()))
+            continue
+        h = _helper_of(m, c) if depth < 3 else None
+        if h is None:
+            continue
+        seqs = []
+        for path in _paths(h.node.body):
+            stmts = [s for s in path if not isinstance(s, tuple)]
+            if stmts and isinstance(stmts[-1], ast.Raise):
+                continue
+            seq = []
+            for st in path:
+                seq.extend(k for k, _, _ in _stmt_sweeps(m, st[1] if isinstance(st, tuple) else st, depth + 1))
+            seqs.append(seq)
+        if not seqs:
+            continue
+        common = [k for k in SWEEPS if all(k in q for q in seqs)]
+        common.sort(key=lambda k: max(q.index(k) for q in seqs))
+        # order inside the helper is reliable only if it is the same on all paths
+        if len(common) == 2 and len({tuple(x for x in q if x in common)[:2] for q in seqs}) != 1:
+            common = ['pullback', 'pushforward']      # pessimistic: reported as wrong order by the caller
+        for k in common:
+            ev.append((k, c, (h.qualname,)))
+    return ev
+
+
+def _early_reads(m, node, depth=0):
+    out = []
+    for a in ast.walk(node):
+        if isinstance(a, ast.Attribute) and a.attr in ('x', 'xbar') and isinstance(a.ctx, ast.Load) \
+                and 'FunctionList' in norm(a.value):
+            out.append(a)
+        if isinstance(a, ast.Call) and depth < 3:
+            h = _helper_of(m, a)
+            if h is not None:
+                out.extend(_early_reads(m, h.node, depth + 1))
+    return out
+
+
 def rule_drv_order(ctx):
     r = RuleResult('R-drv-order', 'on every returning path of each derivative driver: forward evaluation, then (reverse '
                                   'drivers) the reverse sweep, then the read of xbar / x that forms the result; value-carrying '
-                                  'graph state is not read before the forward evaluation')
+                                  'graph state is not read before the forward evaluation (sweeps are followed through helper '
+                                  'methods of CGraph that perform them on all their paths)')
     m = ctx.model
     for name, (rev, _, _) in sorted(DRIVERS.items()):
         fi = m.func(TRACER, 'CGraph.' + name)
@@ -74,17 +135,21 @@ def rule_drv_order(ctx):
             n_paths += 1
             pf = pb = None
             early = []
+            seq = []
             for i, st in enumerate(path):
                 node = st[1] if isinstance(st, tuple) else st
-                if _self_calls(node, 'pushforward') and pf is None:
-                    pf = i
-                if _self_calls(node, 'pullback') and pb is None:
-                    pb = i
                 if pf is None:
-                    for a in ast.walk(node):
-                        if isinstance(a, ast.Attribute) and a.attr in ('x', 'xbar') and isinstance(a.ctx, ast.Load) \
-                                and 'FunctionList' in norm(a.value):
-                            early.append(a)
+                    pre = []
+                    evs = _stmt_sweeps(m, node)
+                    if not any(k == 'pushforward' for k, _, _ in evs):
+                        pre = _early_reads(m, node)
+                    early.extend(pre)
+                for k, c, chain in _stmt_sweeps(m, node):
+                    seq.append(k)
+                    if k == 'pushforward' and pf is None:
+                        pf = len(seq)
+                    if k == 'pullback' and pb is None:
+                        pb = len(seq)
             ret = stmts[-1]
             reads_bar = any(isinstance(a, ast.Attribute) and a.attr == 'xbar' for a in ast.walk(ret))
             reads_x = any(isinstance(a, ast.Attribute) and a.attr == 'x' and 'dependentFunctionList' in norm(a.value) for a in ast.walk(ret))
@@ -103,6 +168,9 @@ def rule_drv_order(ctx):
             for a in early:
                 # value reads before the forward evaluation: only shape information is allowed
                 par = _parent_attr(fi.node, a)
+                if par is None:
+                    for hf in m.cls('CGraph').all_defs:
+                        par = par or _parent_attr(hf.node, a)
                 if par not in ('ndim', 'size', 'shape'):
                     probs.append('graph state `%s` is read before the forward evaluation (stale: previous evaluation / recording)' % norm(a))
             if probs:
@@ -110,7 +178,7 @@ def rule_drv_order(ctx):
                     r.bad(Finding('R-drv-order', _f(fi), name + ':' + pmsg[:60], 'CGraph.%s: %s' % (name, pmsg), fi.file, ret.lineno))
             else:
                 r.ok(construct=key, nontrivial=True,
-                     sample='CGraph.%s path %d: pushforward@%d %s-> `%s`' % (name, n_paths, pf, ('< pullback@%d ' % pb) if rev else '', norm(ret)[:90]))
+                     sample='CGraph.%s path %d: sweep sequence %s -> `%s`' % (name, n_paths, seq, norm(ret)[:90]))
         if n_paths == 0:
             r.unknown(fi.site(), 'no returning path found in driver')
     r.floor = 9
@@ -173,46 +241,99 @@ def _reaching_names(fi, expr_nodes, upto_line):
     return seen
 
 
+def _bind_args(h, call):
+    """parameter name -> argument expression of `self.h(...)` (self excluded)"""
+    params = [p for p in h.params if p != 'self']
+    out = {}
+    for i, a in enumerate(call.args):
+        if i < len(params) and not isinstance(a, ast.Starred):
+            out[params[i]] = a
+    for kw in call.keywords:
+        if kw.arg:
+            out[kw.arg] = kw.value
+    return out
+
+
+def _seed_sites(ctx, fi, kind, depth=0):
+    """sweep calls of `kind` made by fi directly or through helper methods of CGraph:
+    [(call node in fi, expressions in fi that flow into the seed, description, seed roots in fi's root space or None)]"""
+    m, eff = ctx.model, ctx.effects
+    out = []
+    for c in [n for n in ast.walk(fi.node) if isinstance(n, ast.Call)]:
+        if isinstance(c.func, ast.Attribute) and c.func.attr == kind and isinstance(c.func.value, ast.Name) and c.func.value.id == 'self':
+            info = eff.sums[fi].callargs.get(id(c))
+            roots = None
+            if info is not None:
+                roots = set()
+                for a in info[1]:
+                    roots |= flat(a)
+            out.append((c, list(c.args) + [k.value for k in c.keywords], norm(c), roots))
+            continue
+        h = _helper_of(m, c) if depth < 3 else None
+        if h is None:
+            continue
+        bound = _bind_args(h, c)
+        info = eff.sums[fi].callargs.get(id(c))
+        for ic, iexprs, idesc, iroots in _seed_sites(ctx, h, kind, depth + 1):
+            reach = _reaching_names(h, iexprs, ic.lineno)
+            exprs = [e for p, e in bound.items() if p in reach]
+            roots = None
+            if iroots is not None:
+                roots = set()
+                for x in iroots:
+                    if x[0] == 'p' and x[1] != 'self':
+                        # helper parameter: the driver's argument decides
+                        e = bound.get(x[1])
+                        if e is not None and info is not None:
+                            params = [p for p in h.params if p != 'self']
+                            try:
+                                roots |= flat(info[1][params.index(x[1])])
+                            except (ValueError, IndexError):
+                                roots.add(('p', 'self'))
+                        elif e is not None:
+                            roots.add(('p', 'self'))
+                    else:
+                        roots.add(x)
+            out.append((c, exprs, '%s -> %s' % (norm(c), idesc), roots))
+    return out
+
+
 def rule_drv_flow(ctx):
     r = RuleResult('R-drv-flow', 'in each driver the point x and every supplied vector reach the forward seed '
-                                 '(argument of self.pushforward) resp. the adjoint seed (argument of self.pullback); the adjoint '
-                                 'seed is allocated inside the driver (fresh), not taken from recording-time objects')
+                                 '(argument of self.pushforward) resp. the adjoint seed (argument of self.pullback), directly or '
+                                 'through a helper method of CGraph; the adjoint seed is freshly allocated, not taken from '
+                                 'recording-time objects')
     m = ctx.model
-    eff = ctx.effects
     for name, (rev, fwd_params, bar_params) in sorted(DRIVERS.items()):
         fi = m.func(TRACER, 'CGraph.' + name)
-        pfs = _self_calls(fi.node, 'pushforward')
-        pbs = _self_calls(fi.node, 'pullback')
+        pfs = _seed_sites(ctx, fi, 'pushforward')
+        pbs = _seed_sites(ctx, fi, 'pullback')
         if not pfs:
             r.unknown(fi.site(), 'driver without self.pushforward call')
             continue
-        for c in pfs:
-            reach = _reaching_names(fi, c.args, c.lineno)
+        for c, exprs, desc, _ in pfs:
+            reach = _reaching_names(fi, exprs, c.lineno)
             for p in fwd_params:
                 if p not in fi.params:
                     r.unknown(fi.site(), 'driver parameter `%s` vanished' % p)
                 elif p in reach:
                     r.ok(construct='%s:%s->pushforward@%d' % (name, p, c.lineno), nontrivial=True,
-                         sample='CGraph.%s: parameter `%s` reaches `%s`' % (name, p, norm(c)))
+                         sample='CGraph.%s: parameter `%s` reaches `%s`' % (name, p, desc))
                 else:
                     r.bad(Finding('R-drv-flow', _f(fi), '%s:%s-not-in-forward-seed' % (name, p),
                                   'CGraph.%s: parameter `%s` does not flow into the forward seed `%s`: the result cannot depend on it'
-                                  % (name, p, norm(c)), fi.file, c.lineno))
-        for c in pbs:
-            reach = _reaching_names(fi, c.args, c.lineno)
+                                  % (name, p, desc), fi.file, c.lineno))
+        for c, exprs, desc, roots in pbs:
+            reach = _reaching_names(fi, exprs, c.lineno)
             for p in bar_params:
                 if p in reach:
                     r.ok(construct='%s:%s->pullback@%d' % (name, p, c.lineno), nontrivial=True,
-                         sample='CGraph.%s: parameter `%s` reaches `%s`' % (name, p, norm(c)))
+                         sample='CGraph.%s: parameter `%s` reaches `%s`' % (name, p, desc))
                 else:
                     r.bad(Finding('R-drv-flow', _f(fi), '%s:%s-not-in-adjoint-seed' % (name, p),
-                                  'CGraph.%s: vector `%s` does not flow into the adjoint seed `%s`' % (name, p, norm(c)), fi.file, c.lineno))
+                                  'CGraph.%s: vector `%s` does not flow into the adjoint seed `%s`' % (name, p, desc), fi.file, c.lineno))
             # seed freshness via E1
-            info = eff.sums[fi].callargs.get(id(c))
-            if info is not None:
-                roots = set()
-                for a in info[1]:
-                    roots |= flat(a)
+            if roots is not None:
                 stale = [x for x in roots if x[0] == 'p' and x[1] == 'self']
                 if stale:
                     # zeros_like of graph state is fresh; direct aliasing of graph state is not
@@ -439,6 +560,44 @@ def rule_rec_operands(ctx):
     return r
 
 
+def unwrap_maps(fn_node, src):
+    """lists built in fn_node as the elementwise map  v -> (v.x if v is a node else v)  of the sequence `src`:
+    {list name: 'fwd' | 'rev' | 'other'}.  Recognised: `L = [v.x if isinstance(v, C) else v for v in src]` and
+    `for v in src: if isinstance(v, C): L.append(v.x) else: L.append(v)` (any of the full-iteration idioms of seq_iteration)."""
+    out = {}
+
+    def is_unwrap(e, v):
+        return isinstance(e, ast.IfExp) and norm(e.body) == v + '.x' and norm(e.orelse) == v \
+            and isinstance(e.test, ast.Call) and norm(e.test.func) == 'isinstance' and norm(e.test.args[0]) == v
+
+    for st in walk_no_nested(fn_node):
+        if isinstance(st, ast.Assign) and len(st.targets) == 1 and isinstance(st.targets[0], ast.Name):
+            v = st.value
+            if isinstance(v, ast.Call) and isinstance(v.func, ast.Name) and v.func.id == 'list' and len(v.args) == 1:
+                v = v.args[0]
+            if isinstance(v, (ast.ListComp, ast.GeneratorExp)) and len(v.generators) == 1 and not v.generators[0].ifs:
+                g = v.generators[0]
+                fake = ast.For(target=g.target, iter=g.iter, body=[], orelse=[])
+                si = seq_iteration(fake)
+                if si is not None and si[0] == src and isinstance(g.target, ast.Name):
+                    out[st.targets[0].id] = si[1] if is_unwrap(v.elt, g.target.id) else 'other'
+        if isinstance(st, ast.For):
+            si = seq_iteration(st)
+            if si is None or si[0] != src:
+                continue
+            v = si[2]
+            apps = [c for c in ast.walk(st) if isinstance(c, ast.Call) and isinstance(c.func, ast.Attribute) and c.func.attr == 'append'
+                    and isinstance(c.func.value, ast.Name) and len(c.args) == 1]
+            for L in {c.func.value.id for c in apps}:
+                mine = [c for c in apps if c.func.value.id == L]
+                got = sorted(norm(c.args[0]) for c in mine)
+                if got == sorted([v + '.x', v]) or (len(mine) == 1 and is_unwrap(mine[0].args[0], v)):
+                    out[L] = si[1]
+                elif any(norm(c.args[0]) in (v + '.x', v) for c in mine):
+                    out[L] = 'other'
+    return out
+
+
 def rule_rec_same(ctx):
     r = RuleResult('R-rec-same', 'the node stores the callable, argument list and keyword arguments that were used for '
                                  'the call; replay iterates the recorded nodes in list order and hands back exactly those '
@@ -461,23 +620,19 @@ def rule_rec_same(ctx):
         else:
             r.bad(Finding('R-rec-same', _f(fpf), 'create-args', 'the node is not created from (out, Fargs, Fkwargs, func) as used for the '
                                                                  'call: `%s` (rebound: %s)' % (norm(c), sorted(rebound)), fpf.file, c.lineno))
-    # args extracted from Fargs in order: for v in Fargs: L.append(v.x) | L.append(v); func(*L, ...)
-    loops = [st for st in fpf.node.body if isinstance(st, ast.For) and norm(st.iter) == 'Fargs' and isinstance(st.target, ast.Name)]
-    ok_extract = False
-    if len(loops) == 1:
-        v = loops[0].target.id
-        apps = [c for c in ast.walk(loops[0]) if isinstance(c, ast.Call) and isinstance(c.func, ast.Attribute) and c.func.attr == 'append'
-                and isinstance(c.func.value, ast.Name) and len(c.args) == 1]
-        lists = {c.func.value.id for c in apps}
-        got = {norm(c.args[0]) for c in apps}
-        calls = [c for c in walk_no_nested(fpf.node) if isinstance(c, ast.Call) and isinstance(c.func, ast.Name) and c.func.id == 'func']
-        starred = {norm(a.value) for c in calls for a in c.args if isinstance(a, ast.Starred)}
-        if len(lists) == 1 and got == {v + '.x', v} and lists <= starred:
-            ok_extract = True
-    if ok_extract:
-        r.ok(construct='extract', sample='call arguments are Fargs with nodes replaced by their .x, in order')
+    # args extracted from Fargs in order: the list passed as *args to func is the elementwise map of Fargs
+    calls = [c for c in walk_no_nested(fpf.node) if isinstance(c, ast.Call) and isinstance(c.func, ast.Name) and c.func.id == 'func']
+    starred = {norm(a.value) for c in calls for a in c.args if isinstance(a, ast.Starred)}
+    maps = unwrap_maps(fpf.node, 'Fargs')
+    good = [k for k, v in maps.items() if v == 'fwd' and k in starred]
+    wrong = [k for k, v in maps.items() if v != 'fwd' and k in starred]
+    if good and not wrong:
+        r.ok(construct='extract', sample='call arguments `*%s` are Fargs with nodes replaced by their .x, in order' % good[0])
+    elif wrong:
+        r.bad(Finding('R-rec-same', _f(fpf), 'extract', 'the call arguments `*%s` are built from Fargs in %s order' % (wrong[0], maps[wrong[0]]),
+                      fpf.file, fpf.lineno))
     else:
-        r.bad(Finding('R-rec-same', _f(fpf), 'extract', 'argument extraction loop over Fargs not in the recognised form', fpf.file, fpf.lineno))
+        r.unknown(fpf.site(), 'argument extraction from Fargs not in a recognised form (loop with append / list comprehension)')
     # create stores
     cr = m.func(TRACER, 'Function.create')
     want = {'x': 'x', 'args': 'fargs', 'kwargs': 'fkwargs', 'func': 'func'}
@@ -495,18 +650,15 @@ def rule_rec_same(ctx):
     else:
         lp = loops[0]
         it = norm(lp.iter)
-        if it in ('enumerate(self.functionList)', 'self.functionList'):
+        si = seq_iteration(lp)
+        if si is not None and si[0] == 'self.functionList' and si[1] == 'fwd':
             r.ok(construct='replay-order', sample='replay iterates `%s` (recording order)' % it)
         else:
             r.bad(Finding('R-rec-same', _f(cpf), 'replay-order:' + it, 'replay iterates `%s`, not functionList in recording order' % it, cpf.file, lp.lineno))
         c = [c for c in ast.walk(lp) if isinstance(c, ast.Call) and isinstance(c.func, ast.Attribute) and c.func.attr == 'pushforward'][0]
         a = [norm(x) for x in c.args]
         kw = {k.arg: norm(k.value) for k in c.keywords}
-        node = None
-        if isinstance(lp.target, ast.Tuple):
-            node = norm(lp.target.elts[-1])
-        elif isinstance(lp.target, ast.Name):
-            node = lp.target.id
+        node = si[2] if si is not None else '?'
         if a[:2] == [node + '.func', node + '.args'] and kw.get('Fout') == node:
             r.ok(construct='replay-call', nontrivial=True, sample='replay call `%s`' % norm(c))
         else:
@@ -518,13 +670,24 @@ def rule_rec_same(ctx):
     # independents populated from the caller's list in order: for i, v in enumerate(self.independentFunctionList): v.args[0].x = x_list[i]
     ind = [st for st in cpf.node.body if isinstance(st, ast.For) and 'independentFunctionList' in norm(st.iter)]
     ok_ind = False
-    if len(ind) == 1 and isinstance(ind[0].iter, ast.Call) and norm(ind[0].iter.func) == 'enumerate' \
-            and norm(ind[0].iter.args[0]) == 'self.independentFunctionList' and isinstance(ind[0].target, ast.Tuple) \
-            and len(ind[0].target.elts) == 2 and all(isinstance(e, ast.Name) for e in ind[0].target.elts):
-        i, v = ind[0].target.elts[0].id, ind[0].target.elts[1].id
-        xl = cpf.value_params()[0] if cpf.value_params() else 'x_list'
-        want = '%s.args[0].x = %s[%s]' % (v, xl, i)
-        if any(isinstance(b, ast.Assign) and norm(b) == want for b in ind[0].body) and loops and ind[0].lineno < loops[0].lineno:
+    xl = cpf.value_params()[0] if cpf.value_params() else 'x_list'
+    if len(ind) == 1:
+        lp_i = ind[0]
+        wants = set()
+        si = seq_iteration(lp_i)
+        if si is not None and si[0] == 'self.independentFunctionList' and si[1] == 'fwd':
+            # index-based or enumerate: element v, index i
+            if isinstance(lp_i.target, ast.Tuple) and isinstance(lp_i.target.elts[0], ast.Name):
+                wants.add('%s.args[0].x = %s[%s]' % (si[2], xl, lp_i.target.elts[0].id))
+            elif isinstance(lp_i.target, ast.Name) and si[2] != lp_i.target.id:
+                wants.add('%s.args[0].x = %s[%s]' % (si[2], xl, lp_i.target.id))
+        it = lp_i.iter
+        if isinstance(it, ast.Call) and norm(it.func) == 'zip' and len(it.args) == 2 and isinstance(lp_i.target, ast.Tuple) \
+                and len(lp_i.target.elts) == 2 and all(isinstance(e, ast.Name) for e in lp_i.target.elts):
+            names = dict(zip([norm(x) for x in it.args], [e.id for e in lp_i.target.elts]))
+            if set(names) == {'self.independentFunctionList', xl}:
+                wants.add('%s.args[0].x = %s' % (names['self.independentFunctionList'], names[xl]))
+        if any(isinstance(b_, ast.Assign) and norm(b_) in wants for b_ in lp_i.body) and loops and lp_i.lineno < loops[0].lineno:
             ok_ind = True
     if ok_ind:
         r.ok(construct='independents', sample='independents are set from the caller\'s list, position by position, before the replay loop')
@@ -605,6 +768,13 @@ OUTPUT_PARAMS = {
     'increment': {'k'},     # exact_interpolation.increment(i, k): documented in-place multi-index increment helper
     'workaround_strides_function': {'x'},   # applies fun=operator.iXXX to x by design
 }
+# kernels that are called directly by users/tests and therefore count as entry points (confirmed on today's tree)
+KERNEL_ENTRY = {'_broadcast_arrays', '_mul', '_minimum', '_maximum', '_amul', '_itruediv', '_truediv', '_reciprocal', '_floordiv', '_pow_real',
+                '_max', '_argmax', '_absolute', '_negative', '_square', '_sqrt', '_exp', '_expm1', '_logit', '_expit', '_sign', '_botched_clip',
+                '_log', '_log1p', '_dawsn', '_tansec2', '_sincos', '_arcsin', '_arccos', '_arctan', '_sinhcosh', '_tanhsech2', '_erf', '_erfi',
+                '_hyperu', '_hyp2f0', '_hyp0f1', '_polygamma', '_psi', '_gammaln', '_dot', '_dot_non_UTPM_y', '_dot_non_UTPM_x', '_outer',
+                '_outer_non_utpm_y', '_outer_non_utpm_x', '_inv', '_solve', '_solve_non_UTPM_A', '_solve_non_UTPM_x', '_cholesky', '_ndim',
+                '_shape', '_reshape', '_iouter', '_qr', '_qr_rectangular', '_qr_full', '_eigh', '_eigh1', '_mul_non_UTPM_x', '_transpose', '_diag'}
 ENTRY_MODULES = ['algopy.globalfuncs', 'algopy.linalg.linalg', 'algopy.linalg.compound', 'algopy.special.special',
                  'algopy.fft.fft', 'algopy.utils', 'algopy.exact_interpolation', 'algopy.utpm.algorithms',
                  'algopy.utpm.utpm', 'algopy.compound']
@@ -628,6 +798,8 @@ def entry_points(ctx):
             for name, fi in ci.methods.items():
                 if name in INPLACE_API or name.startswith('pb_') or name.startswith('_pb_') or name.endswith('_pullback'):
                     continue
+                if name.startswith('_') and not name.startswith('__') and name not in KERNEL_ENTRY:
+                    continue        # private helper: its effects reach the public callers through the summaries
                 out.append(fi)
                 for nf in getattr(fi, 'nested', {}).values():
                     out.append(nf)
